@@ -31,6 +31,12 @@ def classify_std(path, callee):
     """'no' | 'may' | None(unknown) for a callee without analysable MIR."""
     t = unwind_table()
     full = strip_generics(path)
+    # `<std::iter::Skip<I> as std::iter::Iterator>::next` -> `<std::iter::Skip as std::iter::Iterator>::next`
+    import re
+    prev = None
+    while prev != full:
+        prev = full
+        full = re.sub(r"(?<=[A-Za-z0-9_])<[A-Za-z0-9_,' &:\[\]()]*>", "", full)
     cn = cname(path)
     if is_panic_path(path) or is_panic_path(full):
         return "may"
